@@ -423,7 +423,11 @@ def extra(repo, reg, tier, seed):
                           witness=None if ok else {"expected_shape": body, "found": got}))
     fi = repo.func("fortls.main")
     src = _ast.unparse(fi.node)
-    ok = "sys.stdin.buffer, sys.stdout.buffer" in src and "ReadWriter(stdin, stdout)" in src
+    from pyvc import shape
+    # whatever the two locals are called: they are bound to the binary streams and handed to ReadWriter in that order
+    env = {}
+    ok = shape.has(shape.normalise(fi.node), "stdin, stdout = sys.stdin.buffer, sys.stdout.buffer", shape.Free({"stdin", "stdout"}), env)
+    ok = ok and shape.has(shape.normalise(fi.node), f"ReadWriter({env.get('stdin', 'stdin')}, {env.get('stdout', 'stdout')})")
     items.append(Item("C16/main/effects.binary_streams", "proved" if ok else "refuted", "structural", 0.0,
                       where=fi.where(), mode="table", func=fi.qualname,
                       detail="the server is connected to sys.stdin.buffer / sys.stdout.buffer",
